@@ -279,7 +279,7 @@ class FnGen:
         return self.lines
 
 
-def gen_program(rng, nfuncs=None, depth=None, nfiles=None, twins=True):
+def gen_program(rng, nfuncs=None, depth=None, nfiles=None, twins=True, twin_mode=None, ntwins=1):
     """Returns the program dict described in the module docstring."""
     nfuncs = nfuncs or (rng.below(5) + 2)
     depth = depth or (rng.below(3) + 1)
@@ -298,8 +298,11 @@ def gen_program(rng, nfuncs=None, depth=None, nfiles=None, twins=True):
         funcs.append((name, kind, g.may_raise, lines))
     # byte-identical twin: the same source under another name (and possibly another file / line offset)
     twin = None
-    if twins and rng.chance(1, 3):
-        src = rng.choice(funcs)
+    if twin_mode:
+        nfiles = 2
+    if twins and (twin_mode or rng.chance(1, 3)):
+        nonrec = [f for f in funcs if f[1] != 'rec'] or funcs
+        src = rng.choice(nonrec)
         tname = src[0] + 't'
         tl = [src[3][0].replace(src[0] + '(', tname + '(', 1)] + src[3][1:]
         if src[1] == 'rec':
@@ -309,15 +312,37 @@ def gen_program(rng, nfuncs=None, depth=None, nfiles=None, twins=True):
             feats.add('twin')
     files = [['prog_lib.py', PRELUDE]]
     assign = []
-    allf = list(funcs) + ([twin] if twin else [])
+    extra = []
+    if twin and ntwins > 1:
+        # further byte-identical copies, each in a file of its own at the original's line numbers or shifted
+        for j, suf in enumerate(['u', 'v'][:ntwins - 1]):
+            en = twin[0][:-1] + suf
+            extra.append((en, twin[1], twin[2], [twin[3][0].replace(twin[0] + '(', en + '(', 1)] + twin[3][1:]))
+    allf = list(funcs) + ([twin] if twin else []) + extra
     chunks = [[] for _ in range(nfiles)]
     for i, f in enumerate(allf):
         k = 0 if nfiles == 1 else rng.below(nfiles)
+        if twin_mode and twin and f is twin:
+            k = 1
+        if twin_mode and twin and f[0] == twin[0][:-1]:
+            k = 0
         chunks[k].append(f)
+    if twin_mode and twin:
+        # the twin and its original lead their files: 'same_lines' gives them identical line numbers,
+        # 'overlap' shifts the twin by a few lines so that the ranges overlap
+        chunks[0].sort(key=lambda f: f[0] != twin[0][:-1])
+        chunks[1].sort(key=lambda f: f is not twin)
+    for e in extra:
+        chunks.append([e])
     flist = []
+    npad0 = rng.below(4)
     for k, ch in enumerate(chunks):
         fname = 'prog_%d.py' % k
         pad = ['# pad'] * rng.below(4)
+        if twin_mode == 'same_lines':
+            pad = ['# pad'] * npad0
+        elif twin_mode == 'overlap':
+            pad = ['# pad'] * (npad0 + (k * (1 + rng.below(3))))
         src = list(pad)
         for f in ch:
             src.extend(f[3])
